@@ -4,7 +4,7 @@
 Require Extraction.
 Require Import ExtrOcamlBasic.
 From MOC.Base Require Import RangeSet.
-From MOC.Model Require Import Qty Ops1D Query Expr.
+From MOC.Model Require Import Qty Ops1D Query Expr Build.
 Extraction Language OCaml.
 Extraction "moc_model.ml"
   RangeSet.covb RangeSet.canonb RangeSet.canon_of
@@ -12,4 +12,5 @@ Extraction "moc_model.ml"
   Ops1D.moc_op2 Ops1D.moc_not Ops1D.moc_degrade
   Query.contains_val Query.contains_range Query.intersects_range Query.intersects Query.contains
   Query.overlapped_by Query.msum Query.width
-  Expr.eval Expr.edepth Expr.leaves_validb.
+  Expr.eval Expr.edepth Expr.leaves_validb
+  Build.build_ranges Build.build_cells Build.build_dcells Build.kway.
